@@ -192,3 +192,34 @@ def blocks_assigning_variant(body, adt, variant, dest_local=0):
 
 def texts(fs):
     return [f["text"] for f in fs]
+
+
+def ok_fact(fs, pred):
+    """`pred(x)` holds for some Result-valued expression x known to be Ok on this path.
+    Recognised idioms: match/if-let on x, `x?` (Try::branch ... Continue), x.is_ok() / !x.is_err()."""
+    for f in fs:
+        e, v = f["expr"], f["val"]
+        if v == "Ok" and pred(e):
+            return True
+        if v == "Continue" and is_call(e, "branch") and pred(e[2][0]):
+            return True
+        if v is True and is_call(e, "is_ok") and pred(e[2][0]):
+            return True
+        if v is False and is_call(e, "is_err") and pred(e[2][0]):
+            return True
+    return False
+
+
+def blocks_between(body, start_bb, end_bb, unwind=False):
+    """blocks lying on some path start_bb -> end_bb (inclusive)"""
+    fwd = body.reachable((start_bb,), unwind)
+    out = set()
+    for b in fwd:
+        if end_bb in body.reachable((b,), unwind):
+            out.add(b)
+    return out
+
+
+def ok_exits(body):
+    """(bb, idx, stmt) of `_0 = Result::Ok(..)` assignments, plus returns of a callee's result are ignored."""
+    return blocks_assigning_variant(body, "std::result::Result", "Ok")
